@@ -19,9 +19,11 @@
    Client protocol (the harness follows it; it is part of the model): a thread keeps the PageRefs it
    obtained ([held]); Unpin / Write of a key act only if the thread holds a PageRef for it.
 
-   Ghost fields (never read by the modelled code): [glast] the value last written per key,
-   [gleak] set when the init closure fails after the budget was charged, [grace] set when the
-   residency of a shard changes inside the window of another thread's clear(). *)
+   Ghost field (never read by the modelled code): [glast] the value last written per key.
+
+   Code as of /repo b391e62: get_or_insert releases the charge when the init closure fails (1cb9a1e);
+   clear() counts the pages under each shard's write lock as it removes them (b391e62), site 502 is
+   at its start.  The model before these repairs is kept in Model/CacheV0.v (historical). *)
 From Coq Require Import ZArith List Bool Arith.
 From TV Require Import Lib.Interleave Gen.CacheConsts.
 Import ListNotations.
@@ -151,7 +153,7 @@ Inductive result :=
 Record gi := mkGi { gk : Z; gok : bool; gv : Z }.
 
 Inductive cont :=
-| KCan (g : gi) | KInit (g : gi) | KFailFull (g : gi) | KEvRem (i : nat) (todo : list nat) (cnt : Z)
+| KCan (g : gi) | KInit (g : gi) | KFailFull (g : gi) | KInitFail (g : gi) | KEvRem (i : nat) (todo : list nat) (cnt : Z)
 | KFinish.                                (* the release that ends clear() *)
 
 Inductive pcT :=
@@ -163,11 +165,10 @@ Inductive pcT :=
 | PAl1 (g : gi) (cur : Z)                 (* site 100 *)
 | PAl2 (g : gi) (cur tot : Z)             (* site 101 *)
 | PAl3 (g : gi) (cur : Z)                 (* site 102 *)
-| PFull (g : gi) | PInit (g : gi) | PFailFull (g : gi)
+| PFull (g : gi) | PInit (g : gi) | PFailFull (g : gi) | PInitFail (g : gi)
 | PRel0 (n : Z) (c : cont)
 | PRel1 (n cur : Z) (c : cont)            (* site 112 *)
-| PClLen (i : nat) (acc : Z)
-| PCl502 (acc : Z)                        (* site 502 *)
+| PCl502                                  (* site 502: start of clear() *)
 | PClSh (i : nat) (acc : Z)
 | PEv (i : nat) (cnt : Z) | PEvRem (i : nat) (todo : list nat) (cnt : Z).
 
@@ -176,7 +177,7 @@ Record thread := mkTh { prog : list op; pc : pcT; held : list Z; res : list resu
 Record st := mkSt {
   shs : list shard; used : Z; lim : Z; oth : Z; thr : list (nat * thread);
   alock : option nat;           (* MemoryBudget::alloc_lock: held by allocate from its first load to its return *)
-  glast : list (Z * Z); gleak : bool; grace : bool }.
+  glast : list (Z * Z) }.
 
 Definition set_pc (th : thread) (p : pcT) : thread := mkTh (prog th) p (held th) (res th).
 Definition finish (th : thread) (r : result) : thread := mkTh (prog th) PIdle (held th) (r :: res th).
@@ -193,38 +194,23 @@ Definition glast_get (m : list (Z * Z)) (k : Z) : option Z :=
   match find (fun p => fst p =? k) m with Some p => Some (snd p) | None => None end.
 Definition glast_set (m : list (Z * Z)) (k v : Z) : list (Z * Z) := (k, v) :: m.
 
-(* is shard j inside the window of a clear() that thread-pc p is executing? *)
-Definition in_window (p : pcT) (j : nat) : bool :=
-  match p with
-  | PClLen i _ => Nat.ltb j i
-  | PCl502 _ => true
-  | PClSh i _ => Nat.leb i j
-  | _ => false
-  end.
-Definition covered (ths : list (nat * thread)) (t : nat) (j : nat) : bool :=
-  existsb (fun p => negb (Nat.eqb (fst p) t) && in_window (pc (snd p)) j) ths.
-
 (* state updates *)
 Definition upd (s : st) (shs' : list shard) (used' : Z) (t : nat) (th : thread) : st :=
-  mkSt shs' used' (lim s) (oth s) (lset (thr s) t th) (alock s) (glast s) (gleak s) (grace s).
+  mkSt shs' used' (lim s) (oth s) (lset (thr s) t th) (alock s) (glast s).
 Definition upd_th (s : st) (t : nat) (th : thread) : st := upd s (shs s) (used s) t th.
 Definition upd_sh (s : st) (i : nat) (sh : shard) (t : nat) (th : thread) : st :=
   upd s (set_nth (shs s) i sh) (used s) t th.
-(* a step of thread t that changed the residency of shard i *)
-Definition mark_race (s : st) (t : nat) (i : nat) (s' : st) : st :=
-  mkSt (shs s') (used s') (lim s') (oth s') (thr s') (alock s') (glast s') (gleak s') (grace s' || covered (thr s) t i).
 Definition set_glast (s : st) (k v : Z) : st :=
-  mkSt (shs s) (used s) (lim s) (oth s) (thr s) (alock s) (glast_set (glast s) k v) (gleak s) (grace s).
-Definition set_gleak (s : st) : st :=
-  mkSt (shs s) (used s) (lim s) (oth s) (thr s) (alock s) (glast s) true (grace s).
+  mkSt (shs s) (used s) (lim s) (oth s) (thr s) (alock s) (glast_set (glast s) k v).
 Definition set_alock (s : st) (w : option nat) : st :=
-  mkSt (shs s) (used s) (lim s) (oth s) (thr s) w (glast s) (gleak s) (grace s).
+  mkSt (shs s) (used s) (lim s) (oth s) (thr s) w (glast s).
 
 Definition pc_of_cont (c : cont) : option pcT :=
   match c with
   | KCan g => Some (PCan1 g)
   | KInit g => Some (PInit g)
   | KFailFull g => Some (PFailFull g)
+  | KInitFail g => Some (PInitFail g)
   | KEvRem i todo cnt => Some (PEvRem i todo cnt)
   | KFinish => None
   end.
@@ -234,6 +220,7 @@ Definition resume (th : thread) (c : cont) : thread :=
   | KCan g => set_pc th (PCan1 g)
   | KInit g => set_pc th (PInit g)
   | KFailFull g => set_pc th (PFailFull g)
+  | KInitFail g => set_pc th (PInitFail g)
   | KEvRem i todo cnt => set_pc th (PEvRem i todo cnt)
   end.
 
@@ -347,7 +334,7 @@ Definition start_op (t : nat) (s : st) (th : thread) (o : op) : option st :=
               end
           end
       end
-  | OClear => Some (upd_th s t (set_pc th (PClLen O 0)))
+  | OClear => Some (upd_th s t (set_pc th PCl502))
   | OEvictAll => Some (upd_th s t (set_pc th (PEv O 0)))
   end.
 
@@ -402,7 +389,7 @@ Definition step (t : nat) (s : st) : option st :=
             | None => None
             | Some sh =>
                 match evict_remove sh with
-                | ERemoved sh' => Some (mark_race s t i (upd_sh s i sh' t (set_pc th (PRel0 PAGE_SIZE (KCan g)))))
+                | ERemoved sh' => Some (upd_sh s i sh' t (set_pc th (PRel0 PAGE_SIZE (KCan g))))
                 | ENotIndexed sh' => Some (upd_sh s i sh' t (set_pc th (PCan1 g)))
                 | ENothing sh' => Some (upd_sh s i (set_wl sh' None) t (finish th RErrExhausted))
                 | EPanicked sh' => Some (upd_sh s i (set_wl sh' None) t (finish th RPanic))
@@ -436,7 +423,7 @@ Definition step (t : nat) (s : st) : option st :=
           | Some sh =>
               if is_full sh then
                 match evict_remove sh with
-                | ERemoved sh' => Some (mark_race s t i (upd_sh s i sh' t (set_pc th (PRel0 PAGE_SIZE (KInit g)))))
+                | ERemoved sh' => Some (upd_sh s i sh' t (set_pc th (PRel0 PAGE_SIZE (KInit g))))
                 | ENotIndexed sh' => Some (upd_sh s i sh' t (set_pc th (PInit g)))
                 | ENothing sh' => Some (upd_sh s i sh' t (set_pc th (PRel0 PAGE_SIZE (KFailFull g))))
                 | EPanicked sh' => Some (upd_sh s i (set_wl sh' None) t (finish th RPanic))
@@ -450,10 +437,10 @@ Definition step (t : nat) (s : st) : option st :=
           | Some sh =>
               if gok g then
                 let sh' := set_wl (insert sh (mkE (gk g) true 1 (gv g))) None in
-                Some (set_glast (mark_race s t i (upd_sh s i sh' t (finish_hold th (gk g) RIns))) (gk g) (gv g))
+                Some (set_glast (upd_sh s i sh' t (finish_hold th (gk g) RIns)) (gk g) (gv g))
               else
-                (* `init(...)?` returns with the page charged to the budget and no entry inserted *)
-                Some (set_gleak (upd_sh s i (set_wl sh None) t (finish th RInitErr)))
+                (* init failed: the charge is released (still under the write lock), then Err *)
+                Some (upd_th s t (set_pc th (PRel0 PAGE_SIZE (KInitFail g))))
           end
       | PFailFull g =>
           let i := shard_of (gk g) in
@@ -461,22 +448,17 @@ Definition step (t : nat) (s : st) : option st :=
           | None => None
           | Some sh => Some (upd_sh s i (set_wl sh None) t (finish th RErrFull))
           end
+      | PInitFail g =>
+          let i := shard_of (gk g) in
+          match nth_error (shs s) i with
+          | None => None
+          | Some sh => Some (upd_sh s i (set_wl sh None) t (finish th RInitErr))
+          end
       | PRel0 n c => Some (upd_th s t (set_pc th (PRel1 n (used s) c)))
       | PRel1 n cur c =>
           if used s =? cur then Some (upd s (shs s) (sat_sub cur n) t (resume th c))
           else Some (upd_th s t (set_pc th (PRel0 n c)))
-      | PClLen i acc =>
-          if Nat.leb NSH i then Some (upd_th s t (set_pc th (PCl502 acc)))
-          else
-            match nth_error (shs s) i with
-            | None => None
-            | Some sh =>
-                match wl sh with
-                | Some _ => None
-                | None => Some (upd_th s t (set_pc th (PClLen (S i) (acc + Z.of_nat (length (ents sh))))))
-                end
-            end
-      | PCl502 acc => Some (upd_th s t (set_pc th (PClSh O acc)))
+      | PCl502 => Some (upd_th s t (set_pc th (PClSh O 0)))
       | PClSh i acc =>
           if Nat.leb NSH i then
             if acc * PAGE_SIZE =? 0 then Some (upd_th s t (finish th RCleared))
@@ -487,9 +469,7 @@ Definition step (t : nat) (s : st) : option st :=
             | Some sh =>
                 match wl sh with
                 | Some _ => None
-                | None =>
-                    let s' := upd_sh s i (clear_shard sh) t (set_pc th (PClSh (S i) acc)) in
-                    Some (match ents sh with [] => s' | _ => mark_race s t i s' end)
+                | None => Some (upd_sh s i (clear_shard sh) t (set_pc th (PClSh (S i) (acc + Z.of_nat (length (ents sh))))))
                 end
             end
       | PEv i cnt =>
@@ -511,7 +491,7 @@ Definition step (t : nat) (s : st) : option st :=
               | [] => Some (upd_sh s i (set_wl sh None) t (set_pc th (PEv (S i) cnt)))
               | j :: rest =>
                   match remove sh j with
-                  | Some sh' => Some (mark_race s t i (upd_sh s i sh' t (set_pc th (PRel0 PAGE_SIZE (KEvRem i rest (cnt + 1))))))
+                  | Some sh' => Some (upd_sh s i sh' t (set_pc th (PRel0 PAGE_SIZE (KEvRem i rest (cnt + 1)))))
                   | None => Some (upd_sh s i (set_wl sh None) t (finish th RPanic))
                   end
               end
@@ -529,7 +509,7 @@ Definition site_of (p : pcT) : option Z :=
   | PAl2 _ _ _ => Some 101
   | PAl3 _ _ => Some 102
   | PRel1 _ _ _ => Some 112
-  | PCl502 _ => Some 502
+  | PCl502 => Some 502
   | _ => None
   end.
 Definition at_site (t : nat) (s : st) : bool :=
@@ -547,7 +527,7 @@ Definition init_thread (p : list op) : thread := mkTh p PIdle [] [].
 
 (* c0: bytes already charged to Pool::Cache by somebody else; o: bytes used by the other pools *)
 Definition init_st (total : nat) (limit c0 o : Z) (progs : list (nat * list op)) : st :=
-  mkSt (init_shards total) c0 limit o (map (fun p => (fst p, init_thread (snd p))) progs) None [] false false.
+  mkSt (init_shards total) c0 limit o (map (fun p => (fst p, init_thread (snd p))) progs) None [].
 
 (* ------------------------------------------------------------------ observations *)
 Definition total_len (s : st) : Z := fold_right (fun sh a => Z.of_nat (length (ents sh)) + a) 0 (shs s).
@@ -596,7 +576,7 @@ Definition pins_ok (s : st) : Prop := forall k, pin_at s k = total_held (thr s) 
 
 Definition is_clear_pc (p : pcT) : bool :=
   match p with
-  | PClLen _ _ | PCl502 _ | PClSh _ _ => true
+  | PCl502 | PClSh _ _ => true
   | PRel0 _ KFinish | PRel1 _ _ KFinish => true
   | _ => false
   end.
